@@ -6,6 +6,17 @@ ROOT = os.path.dirname(os.path.dirname(os.path.abspath(__file__)))
 
 # pid -> dict(spec=[modules], text=level text, note=trusted base, technique=..., ref=DESIGN section)
 CLAIMED = {
+    "C01": dict(
+        spec=["DalvikFormat", "DalvikFormatMC", "DalvikFormat_Trace", "DalvikTable"],
+        text="DalvikFormat.tla defines, from the Dalvik documents, length/mnemonic/registers/literal (sign-extended, high16 shifted)/branch offset/"
+             "pool indices of every instruction format and the inverse Encode; TLC checks Encode(Decode(u)) = u and shape invariants on every opcode x "
+             "boundary (thorough: every) high byte x 15 operand tails; each enumerated state is replayed into get_instruction and compared field by field "
+             "(get_length, get_name, get_raw, get_operands, get_literals, get_ref_off, get_ref_kind, InvalidInstruction for unused opcodes); "
+             "all 65536 first code units with random tails are decoded by the real code and validated record by record by DalvikFormat_Trace.",
+        note="Trusted: the harness' transcription of the opcode table (vf/dalvik_table.py, generated into DalvikTable.tla), TLC, the projection of Instruction objects. "
+             "Stub ClassManager: pool contents are placeholders. Argument counts 6..15 of 35c/45cc and a non-zero 00 byte are out of domain.",
+        technique="TLA+ spec of the Dalvik formats model-checked with TLC; enumerated states replayed into the decoder; decoder records validated by a TLA+ trace spec",
+        ref="4/C01"),
     "C03": dict(
         spec=["Leb", "LebReader", "LebExpect", "Leb_Trace"],
         text="TLC checks on the bounded LebReader model (all byte sequences of length 1-2 over a byte alphabet, boundary bytes for lengths 3-5, "
